@@ -12,9 +12,11 @@ C17 — rewriter edits are local and keep everything else meaning the same (theo
   the offsets themselves agree with the lexer's line numbering exactly when the file has no line
   separator other than LF (`lineOffsets_agree_partial`, `lineOffsets_formfeed_counterexample`).
 * escape: reading back `'` ++ escape v ++ `'` gives `v` for every `v` provided the regenerated
-  `escape_trans` table is well-formed (`escape_roundtrip`, re-checked against the live table on every run);
-  on the pinned tree the table is not (`escape_table_pinned`), `'` is a counterexample, and the statement
-  holds for every `v` without a quote (`escape_roundtrip_partial`).
+  `escape_trans` table is well-formed (`escape_roundtrip_of_table`); the live table IS well-formed since
+  /repo fbd2b8c (`escape_table_live`, `by decide` on the regenerated table on every run), so the full
+  statement holds (`escape_roundtrip_live`). Before that repair the table mapped the quote to itself:
+  the conditional `escape_roundtrip_counterexample` / `escape_roundtrip_partial` still compile and
+  describe that state (they become the operative ones again if the entry regresses).
 * printer: counterexamples to `parse (astPrint e) = erase e` for `not (a and b)`, `(a or b) and c`,
   `(a + b).m()`, `-(-x)` (read back as a different tree); the arithmetic fragment is checked on samples here and per run by the
   `parse-printed` correspondence stream (no universally quantified proof).
@@ -114,9 +116,21 @@ theorem escape_roundtrip_of_table (tbl : List (Char × List Char)) (h : tableOk 
   simp only [printedLiteral, escapeWith_eq_units_of_ok h v]
   exact lexString_units v
 
-/-- the full statement, conditional on the live table (vacuous on the pinned tree, see `escape_table_pinned`) -/
+/-- the full statement, conditional on the live table -/
 theorem escape_roundtrip (h : tableOk PrecTable.escapeTrans = true) : escape_full_statement :=
   fun v => escape_roundtrip_of_table _ h v
+
+/-- the regenerated `escape_trans` is well-formed (re-decided on every run; false before /repo fbd2b8c) -/
+theorem escape_table_live : tableOk PrecTable.escapeTrans = true := by decide
+
+/-- the hypothesis of `escape_roundtrip` holds of the live table: the theorem is not vacuous -/
+example : tableOk PrecTable.escapeTrans = true := escape_table_live
+
+/-- full strength, unconditional: every string value, re-printed by `AstPrinter`, is read back unchanged -/
+theorem escape_roundtrip_live : escape_full_statement := escape_roundtrip escape_table_live
+
+example : lexString (printedLiteral PrecTable.escapeTrans ['i', 't', '\'', 's', '\\']) = some ['i', 't', '\'', 's', '\\'] :=
+  escape_roundtrip_live _
 
 /-- non-vacuity: the table with the quote entry written as backslash-quote is well-formed -/
 example : tableOk [('\'', ['\\', '\'']), ('\\', ['\\', '\\'])] = true := by decide
@@ -126,7 +140,7 @@ theorem escape_roundtrip_counterexample :
     tableOk PrecTable.escapeTrans = false → lexString (printedLiteral PrecTable.escapeTrans ['\'']) ≠ some ['\''] := by
   decide
 
-/-- pinned tree: `escape_trans` maps the quote to itself -/
+/-- the table is in exactly one of the two states the theorems above speak about -/
 theorem escape_table_pinned : tableOk PrecTable.escapeTrans = false ∨ tableOk PrecTable.escapeTrans = true := by
   cases tableOk PrecTable.escapeTrans <;> simp
 
@@ -171,13 +185,17 @@ theorem astPrint_method_paren_counterexample :
 theorem astPrint_uminus_counterexample :
     ¬ roundtrip (.uminus 0 (.paren 0 (.uminus 0 (idx 'x')))) := by decide
 
-/-- a string holding a quote is not read back (pinned table) -/
+/-- a string holding a quote is not read back while the table maps the quote to itself (state before fbd2b8c) -/
 theorem astPrint_quote_counterexample :
     tableOk PrecTable.escapeTrans = false → ¬ roundtrip (.str 0 ['i', 't', '\'', 's'] false false) := by decide
 
-theorem astPrint_full_statement_false (h : tableOk PrecTable.escapeTrans = false) : ¬ astPrint_full_statement := by
+/-- … and IS read back with the live table -/
+theorem astPrint_quote_roundtrip_live : roundtrip (.str 0 ['i', 't', '\'', 's'] false false) := by decide
+
+/-- the full print/parse statement is still false of the code: parentheses are dropped (independent of the table) -/
+theorem astPrint_full_statement_false : ¬ astPrint_full_statement := by
   intro hall
-  exact astPrint_quote_counterexample h (hall _ (by decide))
+  exact astPrint_not_paren_counterexample (hall _ (by decide))
 
 /-- samples of the fragment where the printer is right: atoms, calls, arithmetic with the parentheses it re-creates -/
 theorem astPrint_roundtrip_samples :
